@@ -363,6 +363,8 @@ def rand_output(rng):
             lines.append("grüße € 𝄞".encode())
         elif k < 0.4:
             lines.append(b"y" * rng.randint(4000, 4200))
+        elif k < 0.5:
+            lines.append(rng.choice([b" 10%\r 50%\r100%", b"a\rb", b"\rx", b"spin |\rspin /\rdone"]))     # bare carriage returns inside a line
         else:
             lines.append(bytes(rng.choice(b"abc $#'\\\"0\t") for _ in range(rng.randint(0, 12))))
     out = b"\n".join(lines)
@@ -652,7 +654,8 @@ class E2ESuite(Suite):
                     fails.append(f"{kind} with a forbidden byte in {args!r} gave {r!r} instead of IllegalDataException")
                 continue
             payload = bytes.fromhex(outhex) * rep
-            want_out = "|".join(a.encode("utf-8").hex() for a in args) + "\n" + sc.py_text(payload)
+            raw = ("|".join(a.encode("utf-8").hex() for a in args) + "\n").encode() + payload
+            want_out = sc.py_text(raw.replace(b"\n", b"\r\n"))      # the tty's ONLCR, then the documented newline normalisation
             if kind == "exec":
                 want = [0, st, want_out]
             elif kind == "exec0":
